@@ -11,6 +11,8 @@ package x448
 
 import (
 	"math/big"
+	"runtime/debug"
+	"strings"
 	"testing"
 
 	"github.com/cloudflare/circl/internal/zzverif/lib"
@@ -124,16 +126,9 @@ func vc06ModelDouble(x, z *big.Int) (*big.Int, *big.Int) {
 	return vc06MulMod(aa, bb), vc06MulMod(e, t)
 }
 
-func vc06Backend() string {
-	if vc06Purego {
-		return "generic-go"
-	}
-	return "asm"
-}
-
 func vc06Report(prim string, in []byte, b uint, what string, exp *big.Int, got []byte) {
 	lib.Violation("C06:ladder-primitive-differs-mod-p:"+vc06Name+"."+prim, vc06Mon,
-		lib.D("operands", in, "bit", b, "output", what, "expected_mod_p", vc06Bytes(exp), "observed", got, "backend", vc06Backend(), "cfg", lib.Cfg()))
+		lib.D("operands", in, "bit", b, "output", what, "expected_mod_p", vc06Bytes(vc06Mod(new(big.Int).Set(exp))), "observed", got, "backend", vc06Backend(), "cfg", lib.Cfg()))
 }
 
 func vc06Same(exp *big.Int, got []byte) bool {
@@ -144,11 +139,24 @@ func TestVerifC06LadderPrimitives(t *testing.T) {
 	lib.Mandatory(vc06Name+":ladderStep", vc06Name+":diffAdd", vc06Name+":double", vc06Name+":mulA24",
 		vc06Name+":operand-not-reduced", vc06Name+":bit-0", vc06Name+":bit-1")
 	lib.Flag("wb-"+vc06Name+"-backend", vc06Backend())
+	lib.Count("backend:" + vc06Backend())
+	switch lib.Cfg() {
+	case "nobmi2", "noadx":
+		if vc06Backend() != "asm-legacy" {
+			t.Fatalf("configuration %s not in effect (backend %s)", lib.Cfg(), vc06Backend())
+		}
+	case "purego":
+		if !vc06Purego {
+			t.Fatalf("configuration purego not in effect")
+		}
+	}
 	const S = fp.Size
 	pw := vc06NewPool() // 5*S
 	pe := vc06NewPool() // S
 	n := lib.Scale(20000, 1000000)
 	lib.Par(n, func(i int) {
+		// per goroutine: a fault on a guard page becomes a panic lib.Try recovers
+		debug.SetPanicOnFault(true)
 		r := lib.NewRng("c06/wb/"+vc06Name, i)
 		atEnd := i&1 == 0
 		var in [5][]byte
@@ -178,7 +186,7 @@ func TestVerifC06LadderPrimitives(t *testing.T) {
 			w := (*[5]fp.Elt)(g.Ptr())
 			lib.Case([]byte(vc06Name+".ladderStep"), flat, []byte{byte(b)})
 			if p := lib.Try(vc06Name+".ladderStep", flat, func() { ladderStep(w, b) }); p != nil {
-				lib.Violation("C06:panic-"+p.Class()+":"+vc06Name+".ladderStep", vc06Mon, lib.D("operands", flat, "bit", b, "panic", p.Value, "guard_at_end", atEnd))
+				lib.Violation("C06:panic-"+vc06PanicClass(p)+":"+vc06Name+".ladderStep", vc06Mon, lib.D("operands", flat, "bit", b, "panic", p.Value, "guard_at_end", atEnd))
 			} else {
 				lib.Count(vc06Name + ":ladderStep")
 				x1, x2, z2, x3, z3 := v[0], v[1], v[2], v[3], v[4]
@@ -219,7 +227,7 @@ func TestVerifC06LadderPrimitives(t *testing.T) {
 			w := (*[5]fp.Elt)(g.Ptr())
 			lib.Case([]byte(vc06Name+".diffAdd"), flat, []byte{byte(b)})
 			if p := lib.Try(vc06Name+".diffAdd", flat, func() { diffAdd(w, b) }); p != nil {
-				lib.Violation("C06:panic-"+p.Class()+":"+vc06Name+".diffAdd", vc06Mon, lib.D("operands", flat, "bit", b, "panic", p.Value, "guard_at_end", atEnd))
+				lib.Violation("C06:panic-"+vc06PanicClass(p)+":"+vc06Name+".diffAdd", vc06Mon, lib.D("operands", flat, "bit", b, "panic", p.Value, "guard_at_end", atEnd))
 			} else {
 				lib.Count(vc06Name + ":diffAdd")
 				mu, x1, z1, x2, z2 := v[0], v[1], v[2], v[3], v[4]
@@ -256,7 +264,7 @@ func TestVerifC06LadderPrimitives(t *testing.T) {
 			ops := append(lib.Clone(in[1]), in[2]...)
 			lib.Case([]byte(vc06Name+".double"), ops)
 			if p := lib.Try(vc06Name+".double", ops, func() { double((*fp.Elt)(gx.Ptr()), (*fp.Elt)(gz.Ptr())) }); p != nil {
-				lib.Violation("C06:panic-"+p.Class()+":"+vc06Name+".double", vc06Mon, lib.D("operands", ops, "panic", p.Value, "guard_at_end", atEnd))
+				lib.Violation("C06:panic-"+vc06PanicClass(p)+":"+vc06Name+".double", vc06Mon, lib.D("operands", ops, "panic", p.Value, "guard_at_end", atEnd))
 			} else {
 				lib.Count(vc06Name + ":double")
 				ex, ez := vc06ModelDouble(v[1], v[2])
@@ -269,7 +277,7 @@ func TestVerifC06LadderPrimitives(t *testing.T) {
 				copy(gx.Buf, in[3])
 				lib.Case([]byte(vc06Name+".mulA24"), in[3])
 				if p := lib.Try(vc06Name+".mulA24", in[3], func() { mulA24((*fp.Elt)(gz.Ptr()), (*fp.Elt)(gx.Ptr())) }); p != nil {
-					lib.Violation("C06:panic-"+p.Class()+":"+vc06Name+".mulA24", vc06Mon, lib.D("operand", in[3], "panic", p.Value, "guard_at_end", atEnd))
+					lib.Violation("C06:panic-"+vc06PanicClass(p)+":"+vc06Name+".mulA24", vc06Mon, lib.D("operand", in[3], "panic", p.Value, "guard_at_end", atEnd))
 				} else {
 					lib.Count(vc06Name + ":mulA24")
 					e := new(big.Int).Mul(v[3], big.NewInt(vc06A24))
@@ -289,4 +297,13 @@ func TestVerifC06LadderPrimitives(t *testing.T) {
 			}
 		}
 	})
+}
+
+// vc06PanicClass: a fault on a guard page (operand over-read / over-write) surfaces as
+// Go's "invalid memory address" panic once SetPanicOnFault is on.
+func vc06PanicClass(p *lib.Panic) string {
+	if strings.Contains(p.Value, "invalid memory address") || strings.Contains(p.Value, "fault address") {
+		return "guard-page-fault"
+	}
+	return p.Class()
 }
